@@ -101,7 +101,7 @@ def run_shape(tdir, work, inv, k, rep=0):
     elif inv["pre"] == "isdir":
         os.makedirs(os.path.join(d, "adir")); target = "adir"
     if inv["pre"] == "present" and target:
-        open(os.path.join(d, target), "wb").write(b"PRE-EXISTING SENTINEL\n")
+        open(os.path.join(d, target), "wb").write(b"PRE-EXISTING SENTINEL\n" * 400)        # longer than any binary written here
     fifo = None
     if inv["pre"] == "fifo" and target:
         os.mkfifo(os.path.join(d, target))
